@@ -73,9 +73,84 @@ def gen_plan(g):
     return {"P": P, "ticks": ticks, "main": main, "origs": origs, "env": {"0": env}}
 
 
+def gen_rear_plan(g):
+    """Run-time cloning: cloner frames rear originals into host frames, pruner frames raze them (and, in 'dirty' plans,
+    a child frame of the host razes while the clones run or a pruner leaves clones behind)."""
+    P = g.choice(["0.125", "0.25"])
+    ticks = g.randint(10, 36)
+    origs = [gen_original(g, "orig0", "p", [])]
+    if g.random() < 0.6:
+        origs.append(gen_original(g, "orig1", "q", ["orig0"]))
+    names = [o["name"] for o in origs]
+    clean = g.random() < 0.6
+    rounds = []
+    serial = 0
+    for r in range(g.randint(1, 2)):
+        rd = {"rears": [g.choice(names) for _ in range(g.randint(1, 3))], "static": [], "mid": None}
+        for _ in range(g.choice([0, 0, 1])):
+            serial += 1
+            rd["static"].append({"orig": g.choice(names), "as": "mine" if g.random() < 0.5 else "nr%d" % serial})
+        rd["go"] = g.choice(["all is done", "all is done", "elapsed >= %s" % g.choice(["0.5", "1.0", "1.5"]), "recurred >= %d" % g.randint(1, 6)])
+        rd["fallback"] = g.randint(5, 12)
+        if clean:
+            rd["prune"] = [g.choice(["first", "last"]) for _ in range(g.randint(0, 2))] + ["all"]
+        else:
+            rd["prune"] = [g.choice(["first", "last", "all"]) for _ in range(g.randint(0, 2))]
+            if g.random() < 0.6:
+                rd["mid"] = {"at": g.randint(0, 4), "op": g.choice(["first", "last", "all"])}
+        rounds.append(rd)
+    env = {}
+    for t in range(ticks):
+        if g.random() < 0.4:
+            env[str(t)] = [[g.choice(SHARES[:2]), "value", g.randint(0, 4)]]
+    return {"mode": "rear", "P": P, "ticks": ticks, "origs": origs, "rounds": rounds, "clean": clean, "env": {"0": env}}
+
+
+def rear_main(plan, twin):
+    """The main framer of a rear-mode plan.  twin=False: rear / raze statements; True: the textual-copy twin (clone acts for the
+    static clones and for every rear, no rear / raze statements)."""
+    frames = []
+    R = len(plan["rounds"])
+    for r, rd in enumerate(plan["rounds"]):
+        c, h, p = "c%d" % r, "h%d" % r, "u%d" % r
+        acts = [{"k": "rec", "ctx": "enter", "tag": "%s.enter" % c}, {"k": "rec", "ctx": "exit", "tag": "%s.exit" % c}]
+        if not twin:
+            for o in rd["rears"]:
+                acts.append({"k": "raw", "ctx": "enter", "text": "rear %s as mine be aux in frame %s" % (o, h)})
+        acts.append({"k": "raw", "ctx": None, "text": "go %s" % h})
+        frames.append({"name": c, "over": None, "acts": acts})
+        acts = [{"k": "rec", "ctx": "enter", "tag": "%s.enter" % h}, {"k": "rec", "ctx": "recur", "tag": "%s.recur" % h}, {"k": "rec", "ctx": "exit", "tag": "%s.exit" % h}]
+        for st in rd["static"]:
+            acts.append({"k": "clone", "orig": st["orig"], "as": st["as"], "needs": None})
+        if twin:
+            for o in rd["rears"]:
+                acts.append({"k": "clone", "orig": o, "as": "mine", "needs": None})
+        acts.append({"k": "raw", "ctx": None, "text": "go %s if %s" % (p, rd["go"])})
+        acts.append({"k": "raw", "ctx": None, "text": "go %s if recurred >= %d" % (p, rd["fallback"])})
+        frames.append({"name": h, "over": None, "acts": acts})
+        if rd.get("mid") and not twin:
+            ka, kb = "k%da" % r, "k%db" % r
+            frames.append({"name": ka, "over": h, "acts": [{"k": "rec", "ctx": "enter", "tag": "%s.enter" % ka}, {"k": "rec", "ctx": "exit", "tag": "%s.exit" % ka},
+                                                           {"k": "raw", "ctx": None, "text": "go %s if recurred >= %d" % (kb, rd["mid"]["at"])}]})
+            frames.append({"name": kb, "over": h, "acts": [{"k": "rec", "ctx": "enter", "tag": "%s.enter" % kb}, {"k": "rec", "ctx": "exit", "tag": "%s.exit" % kb},
+                                                           {"k": "raw", "ctx": "enter", "text": "raze %s in frame %s" % (rd["mid"]["op"], h)}]})
+        acts = [{"k": "rec", "ctx": "enter", "tag": "%s.enter" % p}, {"k": "rec", "ctx": "exit", "tag": "%s.exit" % p}]
+        if not twin:
+            for op in rd["prune"]:
+                acts.append({"k": "raw", "ctx": "enter", "text": "raze %s in frame %s" % (op, h)})
+        acts.append({"k": "raw", "ctx": None, "text": "go c%d" % ((r + 1) % R)})
+        frames.append({"name": p, "over": None, "acts": acts})
+    return {"name": "fm", "sched": "active", "order": None, "period": None, "first": "c0", "frames": frames}
+
+
 def build_programs(plan):
     """Returns (program A with clones, program B with copies)."""
     origs = dict((o["name"], o) for o in plan["origs"])
+    if plan.get("mode") == "rear":
+        plan = dict(plan, main=rear_main(plan, False))
+        twin_main = rear_main(plan, True)
+    else:
+        twin_main = plan["main"]
 
     def tail(ticks):
         return [{"name": "zenv", "sched": "active", "order": "front", "period": None, "first": "zenv0",
@@ -119,9 +194,36 @@ def build_programs(plan):
             out.append({"name": f["name"], "over": f.get("over"), "acts": acts})
         return out
 
-    bmain = dict(plan["main"], frames=b_frames(plan["main"]["frames"]))
+    bmain = dict(twin_main, frames=b_frames(twin_main["frames"]))
     B = {"house": "h", "inits": [[s, 0] for s in SHARES], "framers": [bmain] + copies + tail(plan["ticks"])}
     return A, B
+
+
+def watch_rear_raze(res):
+    """after_build hook: records every Rearer / Razer action of the main framer with the host frame's auxiliaries before / after."""
+    from ioflo.base import acting, framing
+    st = res.state
+    fm = [f for f in res.house.framers if f.name == "fm"][0]
+    for frame in fm.frameNames.values():
+        for lst in (frame.beacts, frame.enacts, frame.renacts, frame.reacts, frame.preacts, frame.exacts, frame.rexacts):
+            for act in lst:
+                actor = getattr(act, "actor", None)
+                if isinstance(actor, (acting.Rearer, acting.Razer)) and not getattr(actor, "_verif_wrapped", False):
+                    def make(actor, inner):
+                        def action(**kw):
+                            fr = kw["frame"]
+                            before = [a.name for a in fr.auxes]
+                            r = inner(**kw)
+                            after = [a.name for a in fr.auxes]
+                            gone = [n for n in before if n not in after]
+                            st.add(actor.store.stamp, "rear" if isinstance(actor, acting.Rearer) else "raze", fr.name,
+                                   kw.get("who") or kw["original"].name, before, after,
+                                   [n for n in gone if n in framing.Framer.Names or n.split("_", 1)[-1] in kw["framer"].auxes],
+                                   [(a.name, bool(a.insular), bool(a.razeable)) for a in fr.auxes])
+                            return r
+                        return action
+                    actor.action = make(actor, actor.action)
+                    actor._verif_wrapped = True
 
 
 class C12(Check):
@@ -129,110 +231,201 @@ class C12(Check):
     level = "exploration"
     engine = "flosim"
     design_ref = "§6 C12"
-    rule = ("generated programs whose main framer's frames clone one or two moot originals several times as insular ('as mine') and "
-            "named clones (plain auxiliaries; the builder refuses clones as conditional auxiliaries), the second original itself cloning the first (clones inside "
-            "clones), originals using framer-relative data ('counter of framer') to drive their transitions, entry needs ('let me if counter of framer ...') and 'done'; the "
-            "clone program and its textual-copy twin are run with the same environment history and compared: recorder events "
-            "(tag, frame, context, tick) and the main framer's state after every run equal up to the first-appearance bijection "
-            "of framer names; relative shares of distinct clones distinct and finally equal to the copies'; non-trivial = at "
-            "least two clones of one original ran; distinct = digest of the clone program")
+    rule = ("two plan families. (1) build-time clones: the main framer's frames clone one or two moot originals several times as insular "
+            "('as mine') and named clones, the second original itself cloning the first (clones inside clones), originals using "
+            "framer-relative data ('counter of framer') to drive their transitions, entry needs ('let me if counter of framer ...') and "
+            "'done'. (2) run-time clones (40%): cloner frames 'rear' 1-3 originals into a host frame that may also hold build-time "
+            "insular and named clones, pruner frames 'raze first / last / all in frame host', the cycle repeating so that freed names "
+            "are taken again; 'dirty' plans raze from a child frame of the host while the clones run or leave clones behind. "
+            "Oracles: the clone program and its textual-copy twin (rears as ordinary auxiliaries; family 2 when every pruner ends "
+            "with 'raze all') run on the same environment history and are compared event by event (tag, frame, context, tick, main "
+            "framer state) up to the first-appearance map from (clone name, raze epoch) to copy name; relative shares of distinct "
+            "clones distinct and finally equal to the copies'; directly on every rear / raze action: exactly one razeable insular "
+            "clone appended under a name no live clone has, raze removes exactly the reared clones selected by first / last / all "
+            "and spares build-time insular and named clones, a razed name (and its nested clones' names) is unregistered and "
+            "never records an action again until a later rear takes it; non-trivial = at least two clones of one original ran "
+            "or a dirty plan ran; distinct = digest of the clone program")
     components = dict(COMPONENTS)
-    assumptions = ["rear / raze at run time are not exercised by this check (only build-time clones: insular, named, nested, conditional)",
+    assumptions = ["the builder refuses clones as conditional auxiliaries; 'rear ... be <schedule>' other than aux is refused by the builder too, so only auxiliary clones are reared",
+                   "whether a razed clone that is 'done' but still entered gets its exit actions is outside this statement (probe razed-while-entered only)",
                    "program B (textual copies as ordinary auxiliaries) is the statement's 'what its original would produce alone'"]
-    required_probes = ["insular", "named", "nested", "two-clones-of-one-original", "relative-entry-need"]
+    required_probes = ["insular", "named", "nested", "two-clones-of-one-original", "relative-entry-need", "reared", "razed-all", "razed-first", "razed-last",
+                       "raze-left-others", "raze-spared-non-razeable", "freed-name-taken-again", "dirty-plan", "razed-while-entered"]
     quick_runs = 3000
     thorough_runs = 150000
     shrink_fields = []
 
     def generate(self, S, index, tier):
+        if S.gen.random() < 0.4:
+            return gen_rear_plan(S.gen)
         return gen_plan(S.gen)
 
     def execute(self, plan):
         out = Outcome()
         tr = Trace(keep=False)
+        rear = plan.get("mode") == "rear"
         A, B = build_programs(plan)
         sa, sb = emit(A), emit(B)
         P = Fraction(plan["P"])
         et = env_table(plan["env"])
         cap = float((plan["ticks"] + 10) * P)
-        ra = run_script(sa, period=float(P), env_table=et, cap=cap)
+        ra = run_script(sa, period=float(P), env_table=et, cap=cap, after_build=watch_rear_raze if rear else None)
         vals_a = self._relative(ra) if ra.built and ra.exc is None else {}
-        rb = run_script(sb, period=float(P), env_table=et, cap=cap)
-        vals_b = self._relative(rb) if rb.built and rb.exc is None else {}
-        if not rb.built or rb.exc is not None:
-            raise RuntimeError("harness: the copy program does not build / run: %r %r\n%s" % (rb.exc, getattr(rb, "build_errors", None), sb))
+        twin = (not rear) or plan["clean"]
+        if twin:
+            rb = run_script(sb, period=float(P), env_table=et, cap=cap)
+            vals_b = self._relative(rb) if rb.built and rb.exc is None else {}
+            if not rb.built or rb.exc is not None:
+                raise RuntimeError("harness: the copy program does not build / run: %r %r\n%s" % (rb.exc, getattr(rb, "build_errors", None), sb))
         if not ra.built or ra.exc is not None:
-            out.violate("rejected", "clone program rejected or raised while its textual-copy twin runs", "exc=%r errors=%r\n%s" % (ra.exc, getattr(ra, "build_errors", None), sa))
+            out.violate("rejected", "clone program rejected or raised%s" % (" while its textual-copy twin runs" if twin else ""),
+                        "exc=%r errors=%r\n%s" % (ra.exc, getattr(ra, "build_errors", None), sa))
             out.digest = tr.digest()
             return out
         text = repr(plan)
-        for key, probe in (("'as': 'mine'", "insular"), ("'as': 'nc", "named")):
+        for key, probe in (("'as': 'mine'", "insular"), ("'as': 'nc", "named"), ("'as': 'nr", "named")):
             if key in text:
                 out.probe(probe)
         if any(a["k"] == "clone" for o in plan["origs"] for f in o["frames"] for a in f["acts"]):
             out.probe("nested")
         if "let me if counter of framer" in text:
             out.probe("relative-entry-need")
-        if any(a["k"] == "clone" and a["needs"] for f in plan["main"]["frames"] for a in f["acts"]):
-            out.probe("conditional-clone")
+        epochs = {}
+        if rear:
+            out.probe("reared")
+            self._rear_raze_oracle(plan, ra, out, sa, P, epochs)
 
-        def events(res):
+        def events(res, keyed):
             ev = []
+            epoch = 0
             for e in res.trace:
                 if e[2] == "rec":
-                    ev.append((round(e[1] / float(P)), "rec", e[3], e[4], e[5], e[6]))
+                    ev.append((round(e[1] / float(P)), "rec", e[3], (e[4], epoch) if keyed and e[4] != "fm" else e[4], e[5], e[6]))
                 elif e[2] == "sent" and e[3] == "fm":
                     ev.append((round(e[1] / float(P)), "sent", e[4], e[5], e[6][0], tuple(e[6][1]), round(e[6][2], 9), e[6][3]))
+                elif e[2] == "raze" and [n for n in e[5] if n not in e[6]]:
+                    epoch += 1      # names are reused after a raze: a framer is identified by (name, number of razes so far)
             return ev
-        ea, eb = events(ra), events(rb)
-        amap, bmap = {}, {}
-        n = min(len(ea), len(eb))
-        diff = None
-        for i in range(n):
-            x, y = ea[i], eb[i]
-            if x[1] != y[1] or x[0] != y[0]:
-                diff = i
-                break
-            if x[1] == "rec":
-                if (x[2], x[4], x[5]) != (y[2], y[4], y[5]):
+        ea = events(ra, rear)
+        amap = {}
+        if twin and not out.violations:
+            eb = events(rb, False)
+            bmap = {}
+            n = min(len(ea), len(eb))
+            diff = None
+            for i in range(n):
+                x, y = ea[i], eb[i]
+                if x[1] != y[1] or x[0] != y[0]:
                     diff = i
                     break
-                fa, fb = x[3], y[3]
-                if amap.setdefault(fa, fb) != fb or bmap.setdefault(fb, fa) != fa:
+                if x[1] == "rec":
+                    if (x[2], x[4], x[5]) != (y[2], y[4], y[5]):
+                        diff = i
+                        break
+                    fa, fb = x[3], y[3]
+                    ep = fa[1] if isinstance(fa, tuple) else 0
+                    if amap.setdefault(fa, fb) != fb or bmap.setdefault((fb, ep), fa) != fa:
+                        diff = i
+                        break
+                elif x[2:] != y[2:]:
                     diff = i
                     break
-            elif x[2:] != y[2:]:
-                diff = i
-                break
-        if diff is None and len(ea) != len(eb):
-            diff = n
-        if diff is not None:
-            out.violate("clone-differs", "a clone does not behave like a copy of its original",
-                        "first difference at event %d:\n clone program %r\n copy program  %r\nname map %r\n%s" % (diff, ea[diff:diff + 3], eb[diff:diff + 3], amap, sa))
-        else:
-            clones = [k for k in amap if k not in ("fm",)]
-            per_orig = {}
-            for k in clones:
-                per_orig.setdefault(k.rsplit("_", 1)[-1].rstrip("0123456789"), []).append(k)
-            if len(clones) >= 2:
-                out.probe("two-clones-of-one-original")
-                out.nontrivial = True
-            # relative state: one distinct store entry per clone, equal to its copy's
-            if len(set(vals_a)) != len(vals_a):
-                out.violate("shared-state", "two clones share a relative store path", repr(sorted(vals_a)))
-            for ca, cb in amap.items():
-                if ca == "fm":
-                    continue
-                va, vb = vals_a.get(ca, "<none>"), vals_b.get(cb, "<none>")
-                if va != vb:
-                    out.violate("relative-value", "a clone's framer-relative share differs from its copy's", "clone %s counter %r, copy %s counter %r\n%s" % (ca, va, cb, vb, sa))
-                    break
-        tr.add("events", len(ea), sorted(amap.items()))
+            if diff is None and len(ea) != len(eb):
+                diff = n
+            if diff is not None:
+                out.violate("clone-differs", "a %s does not behave like a copy of its original" % ("reared clone" if rear else "clone"),
+                            "first difference at event %d:\n clone program %r\n copy program  %r\nname map %r\n%s" % (diff, ea[diff:diff + 3], eb[diff:diff + 3], amap, sa))
+            else:
+                clones = [k for k in amap if k != "fm"]
+                if len(clones) >= 2:
+                    out.probe("two-clones-of-one-original")
+                    out.nontrivial = True
+                if not rear:
+                    # relative state: one distinct store entry per clone, equal to its copy's
+                    if len(set(vals_a)) != len(vals_a):
+                        out.violate("shared-state", "two clones share a relative store path", repr(sorted(vals_a)))
+                    for ca, cb in amap.items():
+                        if ca == "fm":
+                            continue
+                        va, vb = vals_a.get(ca, "<none>"), vals_b.get(cb, "<none>")
+                        if va != vb:
+                            out.violate("relative-value", "a clone's framer-relative share differs from its copy's", "clone %s counter %r, copy %s counter %r\n%s" % (ca, va, cb, vb, sa))
+                            break
+        elif rear and not out.violations:
+            out.nontrivial = True
+        tr.add("events", len(ea), sorted((repr(k), v) for k, v in amap.items()), [e[2:] for e in ra.trace if e[2] in ("rear", "raze")])
         out.digest = tr.digest()
         out.state_digest = hashlib.sha256(sa.encode()).hexdigest()[:16]
         out.steps = plan["ticks"]
         out.sim_time = float(plan["ticks"] * P)
         return out
+
+    def _rear_raze_oracle(self, plan, ra, out, sa, P, epochs):
+        """Direct oracle on the rear / raze actions and what follows them (no twin needed)."""
+        reared = {}      # host frame -> names created there by rear and not razed since
+        dead = set()     # razed names not (yet) taken again
+        openf = {}       # framer name -> frames entered and not exited
+
+        def is_dead(n):
+            return n in dead or any(n.startswith(d + "_") for d in dead)
+
+        for e in ra.trace:
+            kind = e[2]
+            tick = round(e[1] / float(P))
+            if kind == "rec":
+                name = e[4]
+                if name != "fm" and is_dead(name):
+                    out.violate("razed-ran", "a razed clone ran again", "tick %d: action %s of %s in frame %s after it was razed\n%s" % (tick, e[3], name, e[5], sa))
+                    return
+                if e[6] == "enter":
+                    openf.setdefault(name, set()).add(e[5])
+                elif e[6] == "exit":
+                    openf.setdefault(name, set()).discard(e[5])
+            elif kind == "rear":
+                host, orig, before, after, still, flags = e[3], e[4], e[5], e[6], e[7], e[8]
+                if after[:len(before)] != before or len(after) != len(before) + 1:
+                    out.violate("rear", "rear did not append exactly one clone to the host frame", "tick %d rear %s in %s: before %r after %r\n%s" % (tick, orig, host, before, after, sa))
+                    return
+                new = after[-1]
+                if new in before or len(set(after)) != len(after):
+                    out.violate("rear-name", "reared clone shares its name (and so its relative store paths) with a live clone", "tick %d: %r\n%s" % (tick, after, sa))
+                    return
+                fl = dict((n, (i, z)) for n, i, z in flags)
+                if fl[new] != (True, True):
+                    out.violate("rear-flags", "reared clone is not a razeable insular clone", "tick %d: %s insular / razeable = %r\n%s" % (tick, new, fl[new], sa))
+                    return
+                if is_dead(new):
+                    out.probe("freed-name-taken-again")
+                dead.discard(new)
+                openf.pop(new, None)
+                for k in [k for k in openf if k.startswith(new + "_")]:
+                    openf.pop(k)
+                reared.setdefault(host, []).append(new)
+            elif kind == "raze":
+                host, who, before, after, still, flags = e[3], e[4], e[5], e[6], e[7], e[8]
+                cand = [n for n in before if n in reared.get(host, [])]
+                want = cand if who == "all" else (cand[:1] if who == "first" else cand[-1:])
+                gone = [n for n in before if n not in after]
+                if gone != want or [n for n in before if n not in gone] != after:
+                    out.violate("raze-set", "raze %s removed the wrong auxiliaries" % who,
+                                "tick %d raze %s in %s: before %r after %r; razeable insular (reared) clones there %r, expected to go %r\n%s" % (tick, who, host, before, after, cand, want, sa))
+                    return
+                if still:
+                    out.violate("raze-name", "a razed clone's name is still registered", "tick %d: %r\n%s" % (tick, still, sa))
+                    return
+                if want:
+                    out.probe("razed-" + who)
+                    if len(cand) > len(want):
+                        out.probe("raze-left-others")
+                    if [n for n in before if n not in cand]:
+                        out.probe("raze-spared-non-razeable")
+                for n in gone:
+                    if any(openf.get(k) for k in openf if k == n or k.startswith(n + "_")):
+                        out.probe("razed-while-entered")
+                    reared[host].remove(n)
+                    dead.add(n)
+        if not plan["clean"]:
+            out.probe("dirty-plan")
 
     @staticmethod
     def _relative(res):
